@@ -502,6 +502,9 @@ func tdRun(c tdCase) (V, string, Verdict) {
 			}
 			if strings.Join(got[0].RIDs, ",") != strings.Join(want, ",") {
 				v = Fail("roundtrip-rids-differ", fmt.Sprintf("%v vs %v", got[0].RIDs, want))
+			} else if len(got[0].SSRCs) != 0 || got[0].RTX != nil || got[0].FEC != nil {
+				// c12_track_details_roundtrip_encodings: the simulcast track carries the rids only
+				v = Fail("roundtrip-simulcast-carries-ssrc", fmt.Sprintf("%+v", got[0]))
 			}
 		}
 	}
